@@ -771,10 +771,12 @@ fn gen_elem(rng: &mut crate::rng::Rng, name: &str, depth: usize, out: &mut Strin
   }
   out.push('>');
   if leaf_text {
-    // what `node.text()` sees: the first child only
-    match rng.below(8) {
+    // what `optional_content(node)` sees: the text children, concatenated
+    match rng.below(10) {
       0 => {}
       1 => out.push_str("<!-- c -->1"),
+      8 => out.push_str("1 <!-- c --> + 2"),
+      9 => out.push_str("a<?p?>b<!-- c --><![CDATA[c]]>"),
       2 => out.push_str("<![CDATA[a < b]]>"),
       3 => out.push_str(" 1 <x/> 2 "),
       4 => out.push_str("<x/>tail"),
